@@ -110,3 +110,12 @@ Definition hh_prog : list item :=
    IStmt (SAssign w_x (EFloat (5 # 2)));
    IStmt (SAssign w_a (ECall n_twice [EName w_x] []));
    IStmt (SAssign w_b (ECall n_twice [EInt 3] []))].
+
+(* narrower into wider: a = 2.5 ; a = 1 ; a = 3.5 ; b = 3 ; if ..: a = b ; a = 0.5 ; x = a * 2
+   a is declared float; it receives ints (at column 0 and inside a branch) and is only read while its label is float *)
+Definition narrow_pre : list stmt :=
+  [SAssign w_a (EFloat (5 # 2)); SAssign w_a (EInt 1); SAssign w_a (EFloat (7 # 2)); SAssign w_b (EInt 3);
+   if1 [SAssign w_a (EName w_b)]; SAssign w_a (EFloat (1 # 2)); SAssign w_x (EBin Mult (EName w_a) (EInt 2))].
+(* the same, but a is read while its label is int: a = 2.5 ; a = 1 ; x = a *)
+Definition narrow_read_pre : list stmt :=
+  [SAssign w_a (EFloat (5 # 2)); SAssign w_a (EInt 1); SAssign w_x (EName w_a)].
